@@ -1,4 +1,5 @@
 import GBS.Lemmas.GenClosed
+import GBS.Extracted.Choose
 import Mathlib.Tactic.Ring
 import Mathlib.Tactic.FieldSimp
 import Mathlib.Tactic.Linarith
@@ -286,5 +287,18 @@ theorem C08_handover {t : Token} {p : Mol} {ω ω' : Oracle} {m : Mol} {tr : Tra
 example : chooseProbs [2, 6] = [1/4, 3/4] := by decide +kernel
 example : chooseProbs [0, 0, 0] = [1/3, 1/3, 1/3] := by decide +kernel
 example : chooseProbs [5, 5] = [1/2, 1/2] := by decide +kernel
+
+/-! ## the translated `choose_compatible_weight` -/
+
+theorem chooseSumX_eq (l : List Rat) : chooseSumX l = sumRat l := rfl
+
+/-- **C08 (tie by translation)**: `chooseWeightsX` is regenerated on every run from the source of `choose_compatible_weight`
+(`Extracted/Choose.lean`: the statements between the collection of the compatible descriptors' weights and the call of
+`rng.choice`).  The vector it hands to `rng.choice` is the model's `chooseProbs`, about which the choice laws above are proved:
+they hold of the code as it is written now, not only of the hand-written model. -/
+theorem C08_translated_choose (ws : List Rat) : chooseWeightsX ws = chooseProbs ws := by
+  cases ws with
+  | nil => simp [chooseWeightsX, chooseProbs, trick]
+  | cons w t => simp [chooseWeightsX, chooseProbs, trick, chooseSumX_eq]
 
 end GBS
